@@ -806,6 +806,8 @@ impl DirectAddrUpdateState {
         self.port_mapper.procure_mapping();
 
         trace!("requesting net_report report");
+        #[cfg(n0_computer_iroh_verif)]
+        verif_hooks::RUNS_STARTED.fetch_add(1, std::sync::atomic::Ordering::SeqCst);
         let sock = self.sock.clone();
 
         let run_done = self.run_done.clone();
@@ -835,9 +837,30 @@ impl DirectAddrUpdateState {
                 // mark run as finished
                 debug!("direct addr update done ({:?})", why);
                 run_done.send(()).await.ok();
+                #[cfg(n0_computer_iroh_verif)]
+                verif_hooks::after_done_signal().await;
             }
             .instrument(tracing::Span::current()),
         );
+    }
+}
+
+/// Verification hooks (compiled only with `--cfg n0_computer_iroh_verif`): an event counter for net report runs and
+/// a pause point between a run's done signal and the end of its task.
+#[cfg(n0_computer_iroh_verif)]
+pub(crate) mod verif_hooks {
+    use std::sync::atomic::{AtomicU64, AtomicUsize, Ordering};
+
+    pub(crate) static RUNS_STARTED: AtomicUsize = AtomicUsize::new(0);
+    pub(crate) static DONE_SIGNALS: AtomicUsize = AtomicUsize::new(0);
+    pub(crate) static PAUSE_AFTER_DONE_MS: AtomicU64 = AtomicU64::new(0);
+
+    pub(crate) async fn after_done_signal() {
+        DONE_SIGNALS.fetch_add(1, Ordering::SeqCst);
+        let ms = PAUSE_AFTER_DONE_MS.load(Ordering::SeqCst);
+        if ms > 0 {
+            n0_future::time::sleep(std::time::Duration::from_millis(ms)).await;
+        }
     }
 }
 
